@@ -26,10 +26,10 @@ def enc_row(v):
 
 def wrap_trace(tid, rng, stacking):
     from mlinsights.sklapi import SkBaseTransformLearner, SkBaseTransformStacking
-    stub = rng.choice(["reg", "clf", "trans"])
+    stub = rng.choice(["reg", "clf", "trans", "utrans"])
     classes = sorted(rng.sample([0, 1, 2, 5, 7], rng.choice([2, 3]))) if stub == "clf" else []
-    method = {"reg": "predict", "trans": "transform", "clf": rng.choice(["predict", "predict_proba"])}[stub]
-    mk = {"reg": stubs.RecReg, "clf": stubs.RecClf2, "trans": stubs.RecTrans}[stub]
+    method = {"reg": "predict", "trans": "transform", "utrans": "transform", "clf": rng.choice(["predict", "predict_proba"])}[stub]
+    mk = {"reg": stubs.RecReg, "clf": stubs.RecClf2, "trans": stubs.RecTrans, "utrans": stubs.RecTransU}[stub]
     nm = rng.randint(2, 4) if stacking else 1
     inner = [mk() for _ in range(nm)]
     if stacking:
@@ -37,12 +37,14 @@ def wrap_trace(tid, rng, stacking):
     else:
         use_callable = stub == "reg" and rng.random() < 0.3
         w = SkBaseTransformLearner(inner[0], method=(lambda X, m=inner[0]: m.predict(X)) if use_callable else method)
-    t = dict(id=tid, kind="wrap", stub="reg" if stub in ("reg", "trans") else "clf", method=method, classes=classes, nmembers=nm,
+    t = dict(id=tid, kind="wrap", stub="reg" if stub in ("reg", "trans", "utrans") else "clf", method=method, classes=classes, nmembers=nm,
              copy=False, trainable=False, site=SITE_S if stacking else SITE_L, sig="stub=%s method=%s" % (stub, method), ev=[])
     base = 0
     for rep in range(rng.choice([1, 2])):         # fit, transform, refit on other data, transform
         n = rng.randint(len(classes) or 2, 9)
         X, y = data(rng, n, classes, base)
+        if stub == "utrans":
+            y = None            # an unsupervised member: no target, fit parameters still apply
         base += 50
         del stubs.LOG[:]
         # fit parameters (sample weights) travel to the members like in a direct fit
@@ -50,7 +52,11 @@ def wrap_trace(tid, rng, stacking):
         with warnings.catch_warnings():
             warnings.simplefilter("ignore")
             try:
-                ret = w.fit(X, y) if sw is None else w.fit(X, y, sample_weight=sw)
+                if rng.random() < 0.4:      # the one-call form (what a Pipeline uses for its inner steps)
+                    w.fit_transform(X, y) if sw is None else w.fit_transform(X, y, sample_weight=sw)
+                    ret = w
+                else:
+                    ret = w.fit(X, y) if sw is None else w.fit(X, y, sample_weight=sw)
             except Exception as e:
                 t["ev"].append(dict(a="raised", err=repr(e)[:120]))
                 return t
@@ -62,7 +68,7 @@ def wrap_trace(tid, rng, stacking):
         for m in inner:
             f = byobj.get(id(m))
             mem.append(dict(rows=f["rows"], ys=f["ys"], ws=f.get("ws", [])) if f else dict(rows=[], ys=[], ws=[]))
-        t["ev"].append(dict(a="fit", rows=[int(v) for v in X[:, 0]], ys=[int(v) for v in y], ws=[] if sw is None else [int(v) for v in sw],
+        t["ev"].append(dict(a="fit", rows=[int(v) for v in X[:, 0]], ys=[] if y is None else [int(v) for v in y], ws=[] if sw is None else [int(v) for v in sw],
                             members=mem, returns_self=ret is w))
         P = numpy.array([list(X[rng.randrange(n)]) for _ in range(3)] + [[900 + q, 1.0] for q in range(2)], dtype=numpy.float64)
         out = w.transform(P)
@@ -92,12 +98,29 @@ def transfer_trace(tid, rng):
         except Exception as e:
             t["ev"].append(dict(a="raised", err=repr(e)[:120]))
             return t
-    t["ev"].append(dict(a="fit", d="D", inner_rows=list(tt.estimator_.rows_), orig_rows=list(est.rows_), same_object=tt.estimator_ is est))
-    P = numpy.array([[700 + q, 0.0] for q in range(3)], dtype=numpy.float64)
-    out = tt.transform(P)
-    oo = est.predict(P)
-    for q in range(3):
-        t["ev"].append(dict(a="transform", x=int(P[q, 0]), out=enc_row(out[q]), orig_out=enc_row(oo[q])))
+    def snapshot():
+        t["ev"].append(dict(a="fit", d="D", inner_rows=list(tt.estimator_.rows_), orig_rows=list(est.rows_), same_object=tt.estimator_ is est))
+        P = numpy.array([[700 + q, 0.0] for q in range(3)], dtype=numpy.float64)
+        out = tt.transform(P)
+        oo = est.predict(P)
+        for q in range(3):
+            t["ev"].append(dict(a="transform", x=int(P[q, 0]), out=enc_row(out[q]), orig_out=enc_row(oo[q])))
+    snapshot()
+    Xe, ye = data(rng, rng.randint(3, 7), None, 800)
+    t.update(e_rows=[int(v) for v in Xe[:, 0]], e_ys=[int(v) for v in ye])
+    if rng.random() < 0.5:
+        # the caller trains its estimator again, then fits the wrapper again: the wrapper works with the estimator as it is now
+        est.fit(Xe, ye)
+        t["ev"].append(dict(a="retrain", d="E"))
+        with warnings.catch_warnings():
+            warnings.simplefilter("ignore")
+            try:
+                tt.fit(X, y)
+            except Exception as e:
+                t["ev"].append(dict(a="raised", err=repr(e)[:120]))
+                return t
+        t["sig"] += " retrained"
+        snapshot()
     return t
 
 
@@ -155,7 +178,7 @@ def run(ctx):
     boot.load()
     thorough = ctx.tier == "thorough"
     r = ctx.add_mc("Wrappers", tlc.run("MC_Wrappers", "SPECIFICATION Spec\nCONSTANTS Datas <- MCDatas\n DEV_CopyShares = FALSE\n"
-                                       "INVARIANT Frozen\nINVARIANT OriginalUntouched\nINVARIANT TrainsLikeDirect\n", workers=2, coverage=True))
+                                       "INVARIANT Frozen\nINVARIANT OriginalUntouched\nINVARIANT TrainsLikeDirect\nPROPERTY FreshCopy\n", workers=2, coverage=True))
     ctx.add_mc("Wrappers[DEV_CopyShares]", tlc.run("MC_Wrappers", "SPECIFICATION Spec\nCONSTANTS Datas <- MCDatas\n DEV_CopyShares = TRUE\n"
                                                    "INVARIANT OriginalUntouched\n", workers=2), expect_violation="OriginalUntouched")
     rng = ctx.rng
